@@ -1,6 +1,7 @@
 import PlcProofs.Lemmas.Climb
 import PlcProofs.Lemmas.MirrorExpr
 import PlcProofs.Lemmas.MirrorStmt
+import PlcProofs.Lemmas.MirrorLib
 import PlcModel.Parse.Pou
 
 /-!
@@ -31,10 +32,16 @@ What is proved here:
   build: every statement, in order, each body under the statement it was written in (nothing dropped,
   duplicated, reordered or re-nested), with the fuel the driver really uses;
 
+* `mirror_library_roundtrip` — `library_roundtrip` for a family of whole libraries: `Parse.library` (the function
+  behind the model's `parse_program`) reads the token list of every library made of programs
+  `PROGRAM name statements END_PROGRAM` (no variable blocks; the statements above) back to exactly the library that was
+  written — the programs in source order, each with its name and its statements; the whole input is consumed;
+
 The executable mirror of the whole grammar (`PlcModel/Parse/*.lean`) is tied to `parse_program` by
 the correspondence check (every fixture, every production of the reference grammar, every ordered
 operator pair in both nestings); a machine-checked round-trip theorem for the *full* mirror
-(`library_roundtrip`) is not proved — it stays a stated goal, the partial results are the ones above.
+(`library_roundtrip` for every production: variable blocks, types, configurations, SFC) is not proved — it stays a
+stated goal; the partial results are the ones above, the rest is held by the correspondence.
 -/
 
 namespace C01
@@ -119,6 +126,20 @@ example :
         (kw "EndWhile" "END_WHILE")) semi .nil).WF := by
   intro id kw semi
   exact ⟨⟨rfl, rfl, rfl, rfl, ⟨⟨rfl, rfl, rfl, rfl, rfl, ⟨⟨rfl, rfl, rfl⟩, rfl, trivial⟩, ⟨rfl, rfl, trivial⟩, rfl⟩, rfl, trivial⟩, rfl⟩, rfl, trivial⟩
+
+/-- **Round trip of whole libraries through the parser mirror**: programs without variable blocks, any number, any
+statements of `MX.Stl`. -/
+theorem mirror_library_roundtrip (ps : List MX.Prog) (h : ∀ p ∈ ps, p.WF) :
+    Parse.library (ps.flatMap MX.Prog.toks) =
+      some (.n "Library" [("elements", .l (ps.map fun p => Sx.t "ProgramDeclaration" [p.sx]))]) :=
+  MX.library_reads ps h
+
+/-- non-vacuity: `PROGRAM main x := c; END_PROGRAM` meets `Prog.WF` -/
+example : (MX.Prog.mk ⟨false, "Program", 0, 0, 0, 0, "PROGRAM".toList⟩ ⟨false, "Identifier", 0, 0, 0, 0, "main".toList⟩
+    (.cons (.assign ⟨false, "Identifier", 0, 0, 0, 0, ['x']⟩ ⟨false, "Assignment", 0, 0, 0, 0, [':', '=']⟩
+              (.leaf ⟨false, "Identifier", 0, 0, 0, 0, ['c']⟩)) ⟨false, "Semicolon", 0, 0, 0, 0, [';']⟩ .nil)
+    ⟨false, "EndProgram", 0, 0, 0, 0, "END_PROGRAM".toList⟩).WF :=
+  ⟨rfl, rfl, rfl, ⟨⟨rfl, rfl, rfl⟩, rfl, trivial⟩, rfl⟩
 
 /-! ### non-vacuity: concrete trees over the generated table's levels
 (`+`,`-` at level 5 and `*` at level 6).  The executable mirror itself is evaluated by the compiled
